@@ -61,6 +61,7 @@ pub struct Ctx {
 
 impl Ctx {
     pub fn new(prop: &str, tier: Tier) -> Ctx {
+        let _ = CURRENT_PROP.set(prop.to_string());
         let seed = std::env::var("VERIF_SEED")
             .ok()
             .and_then(|s| s.parse().ok())
@@ -226,9 +227,24 @@ pub fn guarded<R>(f: impl FnOnce() -> R) -> Result<R, String> {
 }
 
 /// Silence the default panic hook (panics are expected outcomes of probes).
+pub static CURRENT_PROP: std::sync::OnceLock<String> = std::sync::OnceLock::new();
+
 pub fn quiet_panics() {
     std::panic::set_hook(Box::new(|info| {
         if GUARD_DEPTH.with(|d| d.get()) == 0 {
+            // A panic raised inside the subject's own sources while the harness was not guarding the
+            // call is still the subject panicking on an explored input: a verdict, not a machinery failure.
+            let in_subject = info.location().map(|l| l.file().starts_with("/repo/")).unwrap_or(false);
+            if let (true, Some(prop)) = (in_subject, CURRENT_PROP.get()) {
+                let dir = format!("{VERIF}/replays/{prop}");
+                let _ = std::fs::create_dir_all(&dir);
+                let path = format!("{dir}/unguarded-subject-panic.json");
+                let body = json!({"property": prop, "check": prop, "kind": "panic", "witness": "(the input is named in the check's progress output; re-run the check)", "detail": {"message": format!("{info}")}});
+                let _ = std::fs::write(&path, serde_json::to_string_pretty(&body).unwrap_or_default());
+                println!("VIOLATION property={prop} replay={path}");
+                println!("  kind=panic (subject code panicked outside a guarded call): {info}");
+                std::process::exit(1);
+            }
             eprintln!("MACHINERY: harness panic: {info}");
         }
     }));
